@@ -8,6 +8,8 @@ import (
 	"math/big"
 
 	"github.com/youchainhq/go-youchain/common"
+	"github.com/youchainhq/go-youchain/core/types"
+	"github.com/youchainhq/go-youchain/event"
 	"github.com/youchainhq/go-youchain/params"
 	"github.com/youchainhq/go-youchain/zzverif"
 )
@@ -170,6 +172,99 @@ func zzH_C03_escalate() {
 			precommitIn := vt == Precommit || hadPrecommit
 			certIn := vt == Certificate || hadCert
 			zzverif.Assert(precommitIn && (!v.shouldCert || certIn || vt == Certificate), "a commit needs the precommit quorum, and in a certificate round also the certificate quorum")
+		}
+	}
+	zzverif.Reach("end")
+}
+
+// ---- (d) the vote set attached to a commit carries the quorums ----
+
+var zzC03Commits []CommitEvent
+
+func zzC03Post(mux *event.TypeMux, ev interface{}) error {
+	if ce, ok := ev.(CommitEvent); ok {
+		zzC03Commits = append(zzC03Commits, ce)
+	}
+	return nil
+}
+
+// the quorum test in integers (equal to the float64 original for committees <= 4096: zzH_C03_quorum)
+func zzC03OverInt(count uint32, threshold uint64, isPos bool) bool {
+	num := uint64(585)
+	if isPos {
+		num = 685
+	}
+	return uint64(count) >= threshold*num/1000
+}
+
+func zzC03Weight(v VotesInfoForBlockHash) uint64 {
+	w := uint64(0)
+	for _, sv := range v {
+		w += uint64(sv.Votes)
+	}
+	return w
+}
+
+// zzH_C03_commit: over any sequence of verified precommit / certificate votes from three
+// senders for two blocks (equivocation included), every CommitEvent the voter posts carries
+// precommits — and in a certificate round certificate votes — that reach their quorums.
+//
+//verif:replace (*$M/consensus/ucon.Voter).vote zzC03Vote
+//verif:replace (*$M/consensus/ucon.Voter).setMarkedBlock zzC03Mark
+//verif:replace $M/consensus/ucon.OverThreshold zzC03OverInt
+//verif:replace (*$M/event.TypeMux).AsyncPost zzC03Post
+func zzH_C03_commit() { zzC03Commit(true) }
+
+// the same in a round without certificate votes
+//
+//verif:replace (*$M/consensus/ucon.Voter).vote zzC03Vote
+//verif:replace (*$M/consensus/ucon.Voter).setMarkedBlock zzC03Mark
+//verif:replace $M/consensus/ucon.OverThreshold zzC03OverInt
+//verif:replace (*$M/event.TypeMux).AsyncPost zzC03Post
+func zzH_C03_commit_plain() { zzC03Commit(false) }
+
+func zzC03Commit(cert bool) {
+	zzC03Log, zzC03Commits = nil, nil
+	n := zzverif.Bound("commitMessages", 4, 4)
+	round := big.NewInt(5)
+	blk := types.NewBlockWithHeader(&types.Header{Number: big.NewInt(5)})
+	v := &Voter{round: round, roundIndex: 1, voteOver: map[common.Hash]*VoteStatus{}}
+	v.shouldCert = cert
+	v.blockInCacheFn = func(h, p common.Hash) *types.Block { return blk }
+	w := NewVotesWrapper()
+	w.clearVotesInfo(round, 1)
+	v.votesMgr = w
+	tPos, tCert := uint64(zzverif.U16("threshold.precommit")), uint64(zzverif.U16("threshold.certificate"))
+	zzverif.Assume(tPos >= 10 && tPos <= 4096 && tCert >= 10 && tCert <= 4096)
+	for i := 0; i < n; i++ {
+		vt := Precommit
+		th := tPos
+		if zzverif.Bool("isCertificateVote") {
+			vt, th = Certificate, tCert
+		}
+		var addr common.Address
+		var hash common.Hash
+		addr[0], hash[0] = zzverif.U8("sender"), zzverif.U8("block")
+		zzverif.Assume(addr[0] < 3 && hash[0] >= 1 && hash[0] <= 2)
+		sv := &SingleVote{Votes: uint32(zzverif.U16("votes"))}
+		// the counted part of processVoteMsg for a verified vote of the current round and index
+		res, _ := w.addrVoteInfo(round, 1, vt, addr, hash, params.KindChamber)
+		if res == addrNotVoted {
+			if add, total := w.newVote(round, 1, vt, addr, common.Hash{}, hash, sv, params.KindChamber); add {
+				v.judgeVoteCount(vt, total, th, hash, common.Hash{}, params.KindChamber)
+			}
+		}
+	}
+	zzverif.Reach("processed")
+	for _, ce := range zzC03Commits {
+		zzverif.Reach("committed")
+		pre := zzC03Weight(ce.ChamberPrecommits)
+		// known finding: in a certificate round the precommit quorum is latched when it is first reached;
+		// a precommitter that equivocates afterwards is removed from the set, and the later commit packs
+		// the reduced set
+		zzverif.AssertKF(pre >= tPos*685/1000, "the precommits attached to a commit reach the precommit quorum", "C03-commit-packs-reduced-votes", v.shouldCert)
+		if v.shouldCert {
+			zzverif.AssertKF(zzC03Weight(ce.ChamberCerts) >= tCert*585/1000, "the certificate votes attached to a commit reach the certificate quorum", "C03-commit-packs-reduced-votes", true)
 		}
 	}
 	zzverif.Reach("end")
